@@ -11,6 +11,7 @@ fn mk(seed: u64, lo: u32, hi: u32, incl: bool, vect: u8, prio: u8) -> Option<Tim
     // the same set of values, written in every form `RangeBounds<u32>` allows (chosen by the seed): `lo..hi` / `lo..=hi`,
     // an unbounded start when lo = 0 (`..hi`, `..=hi`), an excluded start when lo >= 1
     Some(match (seed % 3, lo, incl) {
+        (1, l, true) if hi == u32::MAX && l >= 1 => TimerDevice::new(Some(seed), l.., vect, prio),
         (1, 0, true) => TimerDevice::new(Some(seed), ..=hi, vect, prio),
         (1, 0, false) => TimerDevice::new(Some(seed), ..hi, vect, prio),
         (2, l, true) if l >= 1 => TimerDevice::new(Some(seed), (Excluded(l - 1), Included(hi)), vect, prio),
@@ -74,6 +75,8 @@ pub fn gen(out: &mut Out, ex: &mut Exec, seed: u64, thorough: bool) {
             2 => { let k = 1 + rng.below(100) as u32; (k, k, true) }
             3 => { let lo = rng.below(20) as u32; (lo, lo + 1 + rng.below(30) as u32, false) }
             4 => (1_000_000, 1_000_050, true),
+            // ranges that end at u32::MAX (`n..`, `..=u32::MAX`): the upper end must not be incremented
+            5 => (u32::MAX - rng.below(3) as u32, u32::MAX, true),
             _ => { let lo = rng.below(30) as u32; (lo, lo + rng.below(40) as u32, true) }
         };
         let (lo_e, hi_e) = (lo, if incl { hi } else { hi - 1 });
@@ -125,5 +128,5 @@ pub fn gen(out: &mut Out, ex: &mut Exec, seed: u64, thorough: bool) {
         if fires >= 2 { out.nontrivial += 1; }
         if out.samples.len() < 3 { let mut s = Json::obj(); s.set("ops", Json::Arr(all.iter().take(14).map(|x| Json::s(x.clone())).collect())); out.sample(s); }
     }
-    out.rule = "standalone TimerDevice: random exact counts (incl. 0 and 1), ranges (incl. ranges containing 0, exclusive upper bounds, huge values), seeds; long poll sequences with enable/disable toggles, reset_remaining, io_reset, set_range/set_exact mid-run (every third timer reconfigured often); remaining time, enabled flag and fire/none compared with the model after every op (the model consumes the samples the real StdRng drew); oracle: polls strictly between consecutive interrupts within the range, first interrupt within max+1 polls of enable/reset, disabled never fires. non-trivial = at least 2 interrupts".into();
+    out.rule = "standalone TimerDevice: random exact counts (incl. 0 and 1), ranges (incl. ranges containing 0, exclusive upper bounds, huge values, ranges ending at u32::MAX incl. `n..`), seeds; long poll sequences with enable/disable toggles, reset_remaining, io_reset, set_range/set_exact mid-run (every third timer reconfigured often); remaining time, enabled flag and fire/none compared with the model after every op (the model consumes the samples the real StdRng drew); oracle: polls strictly between consecutive interrupts within the range, first interrupt within max+1 polls of enable/reset, disabled never fires. non-trivial = at least 2 interrupts".into();
 }
